@@ -10,7 +10,8 @@ PROPS = "C13"
 RULE = ("conversations of 1..3 requests (all framing kinds, small and streamed bodies, chunked in four styles, malformed "
         "tails) delivered unsplit and then with the same bytes split: at every single split point (short streams), at the "
         "positions around every CR/LF and around the head/body boundary, one byte per segment, random k-way splits, with a pause "
-        "between segments; the oracle is metamorphic: delivered requests (heads, bodies as read, read results) and the "
+        "between segments; families: a streamed body left unread with pipelined followers (cuts in the body, at and around the "
+        "request boundary), a protocol upgrade whose payload arrives with or behind the head; the oracle is metamorphic: delivered requests (heads, bodies as read, read results) and the "
         "response stream must equal those of the unsplit delivery; the model (which reads the logical stream) must agree with "
         "every delivery; non-trivial = at least one split inside the stream; distinct = distinct lines")
 ASSUMPTIONS = ["a pause of 1 ms between writes makes each segment its own read on the server side (Unix sockets; a TCP sample "
